@@ -3,6 +3,8 @@
 import json, os
 V = os.path.dirname(os.path.dirname(os.path.abspath(__file__)))
 CLAIMED = {
+ "C02": ("Chase-Lev skeleton (fence, last-element CAS, bottom restore, steal order, publish order, growth), writers table, owner discipline, steal index table, idle loop",
+         "CFG dominance / fence / guard rules + enumerated index tables over work_stealing_deque.c and the scheduler"),
  "C10": ("fairness certificate: push/pop deque fields differ, swap only on empty, successor re-queue",
          "CFG/AST who-pushes-where + guarded-swap rules over the scheduler"),
 }
